@@ -234,7 +234,8 @@ def run(ctx):
     ctx.extra["runs"] = len(trs)
     ctx.extra["runs_finished"] = fin
     ctx.extra["events_validated"] = sum(len(t["ev"]) for t in trs)
-    ctx.sample({"run": cases[trs[0]["tid"]][0], "events": len(trs[0]["ev"]), "first_step": {k: trs[0]["ev"][1][k] for k in ("idx_from", "idx_new", "skip", "acc", "lnp", "H")}})
+    if trs and len(trs[0]["ev"]) > 1 and trs[0]["ev"][1]["ev"] == "step":
+        ctx.sample({"run": cases[trs[0]["tid"]][0], "events": len(trs[0]["ev"]), "first_step": {k: trs[0]["ev"][1][k] for k in ("idx_from", "idx_new", "skip", "acc", "lnp", "H")}})
     ctx.assumptions += ["ln f and ln(acceptProb) are converted to units of 2^-kmax by the harness with a 1e-6 residual check (math.log trusted)",
                         "the statistical quality of the density-of-states estimate and acceptance as a frequency are not decided",
                         "runs that exhaust the draw budget are validated up to that point (no end/files events)"]
